@@ -47,7 +47,15 @@ var commentTexts = []string{"c", "let x = 1", "| A -> 2", "if then else", "\"quo
 func (l *RandLayout) comment() string {
 	t := core.Pick(l.R, commentTexts)
 	if l.R.Bool() {
+		if l.R.Chance(0.2) {
+			// tight forms: no space after the slashes, block-comment openers inside a line comment
+			return core.Pick(l.R, []string{"//", "//" + t, "///", "// /* not opened", "//*", "// */"})
+		}
 		return "// " + t
+	}
+	if l.R.Chance(0.3) {
+		// block comments whose delimiters touch stars, slashes or nothing at all
+		return core.Pick(l.R, []string{"/**/", "/***/", "/****/", "/** doc **/", "/* x **/", "/*** banner ***/", "/*/ */", "/* / * / */", "/*" + strings.ReplaceAll(t, "*/", "* /") + "*/", "/* // */", "/* ** */"})
 	}
 	return "/* " + strings.ReplaceAll(t, "*/", "* /") + " */"
 }
